@@ -21,7 +21,7 @@ import (
 )
 
 type c39Case struct {
-	// State: missing, empty, random, text, pem-public, pem-unknown, pem-corrupt, valid, valid-trailing,
+	// State: dangling-symlink-deep, missing, empty, random, text, pem-public, pem-unknown, pem-corrupt, valid, valid-trailing,
 	// directory, notdir-parent, dangling-symlink, symlink-loop, symlink-valid, long-name, missing-parent
 	State string      `json:"state"`
 	Key   int         `json:"key"`
@@ -31,7 +31,10 @@ type c39Case struct {
 
 var c39States = []string{"missing", "empty", "random", "text", "pem-public", "pem-unknown", "pem-corrupt", "valid", "valid-trailing",
 	"directory", "notdir-parent", "dangling-symlink", "symlink-loop", "symlink-valid", "long-name", "missing-parent",
-	"pem-keydata-len", "pem-keydata-len", "pem-keytype-other", "pem-key-96", "pem-key-96-mismatch"}
+	"pem-keydata-len", "pem-keydata-len", "pem-keytype-other", "pem-key-96", "pem-key-96-mismatch", "dangling-symlink-deep"}
+
+// c39UnwritableStates are the states in which no file exists at the path and none can be created there
+var c39UnwritableStates = []string{"missing-parent", "dangling-symlink-deep"}
 
 func genC39(t *rapid.T) c39Case {
 	return c39Case{
@@ -57,24 +60,18 @@ func usable(k crypto.PrivKey) *vstat.Violation {
 	return nil
 }
 
-func checkC39(c c39Case) (o vstat.Outcome) {
-	o.Classes = append(o.Classes, "state:"+c.State)
-	o.NonTrivial = c.State != "valid"
-	base := os.Getenv("VERIF_SCRATCH")
-	dir, err := os.MkdirTemp(base, "c39-")
-	if err != nil {
-		o.Discard = true
-		return
-	}
-	defer os.RemoveAll(dir)
-	path := filepath.Join(dir, "key.pem")
+// prepare puts the file state of the case under dir; it returns the key file path and what a loader has to do with it:
+// "new" (write a fresh key), "same" (return the stored key), "error"
+func (c c39Case) prepare(dir string) (path, expect string, ok bool) {
+	ok = true
+	path = filepath.Join(dir, "key.pem")
 	k := gen.Key(c.Key)
 	validPEM, _ := keypem.MarshalPrivKeyPem(k)
 	// expect: "new" (fresh key written), "same" (the valid key), "error"
-	expect := "error"
+	expect = "error"
 	write := func(b []byte) {
 		if err := os.WriteFile(path, b, 0o600); err != nil {
-			o.Discard = true
+			ok = false
 		}
 	}
 	switch c.State {
@@ -125,37 +122,60 @@ func checkC39(c c39Case) (o vstat.Outcome) {
 		expect = "same"
 	case "directory":
 		if err := os.Mkdir(path, 0o700); err != nil {
-			o.Discard = true
+			ok = false
 		}
 	case "notdir-parent":
 		parent := filepath.Join(dir, "file")
 		if err := os.WriteFile(parent, []byte("x"), 0o600); err != nil {
-			o.Discard = true
+			ok = false
 		}
 		path = filepath.Join(parent, "key.pem")
 	case "dangling-symlink":
 		if err := os.Symlink(filepath.Join(dir, "nowhere"), path); err != nil {
-			o.Discard = true
+			ok = false
 		}
 		// the link target does not exist: writing through the link creates the key, which is fine ("missing")
 		expect = "new"
+	case "dangling-symlink-deep":
+		// the link points into a directory that does not exist: nothing to read, and nothing can be written through it
+		if err := os.Symlink(filepath.Join(dir, "no", "such", "dir", "real.pem"), path); err != nil {
+			ok = false
+		}
 	case "symlink-loop":
 		if err := os.Symlink(path, path); err != nil {
-			o.Discard = true
+			ok = false
 		}
 	case "symlink-valid":
 		target := filepath.Join(dir, "real.pem")
 		if err := os.WriteFile(target, validPEM, 0o600); err != nil {
-			o.Discard = true
+			ok = false
 		}
 		if err := os.Symlink(target, path); err != nil {
-			o.Discard = true
+			ok = false
 		}
 		expect = "same"
 	case "long-name":
 		path = filepath.Join(dir, strings.Repeat("k", 300))
 	case "missing-parent":
 		path = filepath.Join(dir, "no", "such", "dir", "key.pem")
+	}
+	return
+}
+
+func checkC39(c c39Case) (o vstat.Outcome) {
+	o.Classes = append(o.Classes, "state:"+c.State)
+	o.NonTrivial = c.State != "valid"
+	base := os.Getenv("VERIF_SCRATCH")
+	dir, err := os.MkdirTemp(base, "c39-")
+	if err != nil {
+		o.Discard = true
+		return
+	}
+	defer os.RemoveAll(dir)
+	k := gen.Key(c.Key)
+	path, expect, prepared := c.prepare(dir)
+	if !prepared {
+		o.Discard = true
 	}
 	if o.Discard {
 		return
